@@ -50,7 +50,11 @@ def run(patch, pids):
             print("patch does not apply to /repo:", ap.stderr[:300])
             return 2
         for pid in pids:
+            evf = os.path.join(V, "evidence", f"{pid}.json")
+            saved = open(evf).read() if os.path.exists(evf) else None
             p = sh(f"cd {V} && ./check {pid} --tier quick", timeout=3600)
+            if saved is not None:           # evidence of a seeded run is not evidence: put the clean-tree file back
+                open(evf, "w").write(saved)
             viol = [l for l in p.stdout.splitlines() if l.startswith("VIOLATION")]
             res[pid] = ("DETECTED" if p.returncode == 1 and viol else ("MACHINERY" if p.returncode == 2 else "missed"), p.returncode, len(viol))
             what = [l for l in p.stderr.splitlines() if l.strip().startswith("what:")][:2]
